@@ -132,6 +132,11 @@ def matmul_cases(tier):
             cases.append(VCase("functional.addmm", {"op": "functional.addmm", "shapes": [sa, (2, 3), (3, 2)], "requires_grad": list(fl)},
                                [Leaf("a", sa, "any", fl[0]), Leaf("b", (2, 3), "any", fl[1]), Leaf("c", (3, 2), "any", fl[2])],
                                lambda T, K: f.addmm(T["a"], T["b"], T["c"]), functions=fns))
+    # matrix operands with batch dimensions (the product broadcasts like matmul), the additive operand broadcast against the product in either direction
+    for sa, sb, sc in [((2,), (2, 2, 3), (3, 2)), ((2, 2, 2), (2, 2, 3), (3, 2)), ((2, 2), (1, 2, 3), (2, 3, 2)), ((2, 1, 2), (2, 3), (3, 2)), ((2, 2, 2), (2, 3), (2, 3, 2)),
+                       ((), (2, 1, 3), (3, 2)), ((1, 2, 1), (2, 2, 3), (3, 1)), ((2,), (3,), (3, 2)), ((2,), (2, 3), (3,)), ((), (3,), (3,)), ((2, 2), (3,), (2, 3, 2))]:
+        cases.append(VCase("functional.addmm", {"op": "functional.addmm", "shapes": [sa, sb, sc], "requires_grad": [True, True, True], "batched": True},
+                           [Leaf("a", sa), Leaf("b", sb), Leaf("c", sc)], lambda T, K: f.addmm(T["a"], T["b"], T["c"]), functions=fns))
     return cases
 
 
